@@ -68,9 +68,9 @@ def _scratch():
     return _dir
 
 
-def load(spec):
+def load(spec, with_siblings=False):
     """Write the program to a fresh file with a never-used module name and import it."""
-    src = gen.render(spec)
+    src = gen.render(spec, with_siblings)
     name = f"c13p_{os.getpid()}_{next(_counter)}"
     path = os.path.join(_scratch(), name + ".py")
     with open(path, "w") as f:
@@ -160,7 +160,7 @@ def interpreter_view(mod, spec):
                 below = [lv for lv in levels if lv[:1] == "L" and lv[1:].isdigit() and int(lv[1:]) > inline]
                 handed += [[lv, n] for lv in below]
                 levels = [lv for lv in levels if lv not in below]
-            levels = [f"L{inline}"] + levels
+            levels = [f"L{inline}"] + [lv for lv in levels if lv != f"L{inline}"]
         renamed[n] = handed
         bound[n] = levels
         cands = []
@@ -234,9 +234,10 @@ def _context_snapshot():
     return [v.get("<unset>") for _, _, v in _context_variables()]
 
 
-def resolver_view(mod):
-    """[(name, kind, annotation, default, origin)] as answered by get_signature_parameters, which resolvers crashed
-    (seen through the public logger argument), and which context variables the call left changed."""
+def resolver_view(mod, root=None):
+    """[(name, kind, annotation, default, origin)] as answered by get_signature_parameters (for the program's root,
+    or for another (class, method) of its module), which resolvers crashed (seen through the public logger argument),
+    and which context variables the call left changed."""
     from jsonargparse._parameter_resolvers import get_signature_parameters
 
     lg = logging.Logger("c13")
@@ -247,7 +248,7 @@ def resolver_view(mod):
     logging.disable(logging.NOTSET)
     before = _context_snapshot()
     try:
-        params = get_signature_parameters(*mod.ROOT, logger=lg)
+        params = get_signature_parameters(*(root or mod.ROOT), logger=lg)
     finally:
         logging.disable(old)
     after = _context_snapshot()
@@ -296,12 +297,37 @@ def popget_default(spec, level, name):
 
 
 def inline_popget_level(spec, name):
-    """Index of the level whose kwargs.pop/get of the name is written inline in the forwarding call, or None."""
+    """Index of the level whose kwargs.pop/get of the name feeds an argument of its own forwarding call - written inline
+    in that call, or (op R) popped into a variable that is given again under the same name - or None."""
     for i, (_, _, op) in enumerate(spec["levels"]):
         pg = gen.op_popget(op)
-        if pg and pg[2] and pg[1] == name:
+        if pg and pg[1] == name and (pg[2] or op[:1] == "R"):
             return i
     return None
+
+
+def callee_chain_takes(spec, j, name):
+    """Do the levels from j downwards take the name out of the **kwargs they are handed, in a form the documentation
+    says is resolved (signature parameter, kwargs.pop/get with default, the alternative callee of a runtime branch)?
+    A shape fact of the spec, used only to name the class of a name."""
+    levels = spec["levels"]
+    while j < len(levels):
+        link, own, op = levels[j]
+        if name in own.lower():
+            return True
+        pg = gen.op_popget(op)
+        if pg and pg[1] == name:
+            return pg[0] in "PG"
+        if link in gen.TERMINALS or link == "inst_method":
+            return False
+        if gen.op_hard(op) == name and link != "dict_update":
+            return False  # given at the forwarding call: below, the name does not come from **kwargs
+        if link == "ncc":
+            return True  # the alternative callee names the whole pool
+        if gen.op_hard_positional(op) and j + 1 < len(levels) and [p[0] for p in gen.own_params(levels[j + 1][1])[:1]] == [name]:
+            return False
+        j += 1
+    return False
 
 
 def roles(spec, name):
@@ -329,8 +355,16 @@ def name_class(spec, name):
     r = roles(spec, name)
     if any(link == "dict_literal" and gen.op_hard(op) == name for link, _, op in spec["levels"]):
         return "key-given-in-dict(key=..,**kwargs)"
-    if any(gen.op_hard(op) == name and (gen.op_popget(op) or ("", ""))[1] == name for _, _, op in spec["levels"]):
-        return "popped-and-given-again-at-the-same-call"
+    for i, (_, _, op) in enumerate(spec["levels"]):
+        if gen.op_regiven(op) and gen.op_popget(op)[1] == name:
+            if gen.op_popget(op)[0] == "P":
+                return "popped-and-given-again-at-the-same-call"
+            # kwargs.get leaves the name in **kwargs: giving it again makes every call that passes it fail.  Where no
+            # callee takes the name this is the plain "get is treated as consuming" situation; where the callee does
+            # take it, the name is hard-coded for that callee and must not be offered.
+            if spec["levels"][i][0] != "inst_method" and callee_chain_takes(spec, i + 1, name):
+                return "read-by-kwargs.get-and-given-again-to-a-callee-that-takes-it"
+            return "read-by-kwargs.get"
     if r & {"G", "J"}:
         return "read-by-kwargs.get"
     if not r:
@@ -392,7 +426,7 @@ def missing_class(spec, views, name):
         return "bound-behind-method-call-on-local-instance"
     lay = spec.get("layout")
     top = spec["levels"][0]
-    if isinstance(lay, dict) and lay["blank"] == 0 and top[0] == "super" and gen.op_hard_positional(top[2]) and i is not None and i >= 1:
+    if isinstance(lay, dict) and lay["blank"] == 0 and top[0] in gen.SUPER_LINKS and gen.op_hard_positional(top[2]) and i is not None and i >= 1:
         # the root class has no __init__ of its own and the __init__ it inherits gives the first positional parameter
         # at its super().__init__ call; the name is bound below that call
         return "below-positional-given-at-super-call-of-inherited-init"
@@ -622,9 +656,55 @@ def disturb():
     return resolver_view(_disturber)
 
 
-def judge(spec, with_parser=True, with_order=True):
+def sibling_check(spec, mod, own):
+    """History independence across SIBLING HIERARCHIES: further root classes over the run's non-root classes whose
+    method resolution order continues differently after a shared class (gen.siblings).  In the program's module the
+    run's top class is resolved first, then every sibling; in a fresh copy of the module (new class objects, nothing
+    resolved yet) the siblings are resolved first, in reverse order, and the top class after them.  The
+    answer for a class may not depend on which of its relatives was resolved before.  The two histories of every class
+    are disjoint: in the program's module the order is top, Sib0, Sib1, ...; in the fresh copy ..., Sib1, Sib0, top.
+    -> (deviations, resolver calls, siblings whose answer differs from the top class's)"""
+    devs, resolves, distinct = [], 0, 0
+
+    def answer(ctx, m, cls):
+        return canon_params(ctx.run(resolver_view, m, (cls, None))[0])
+
+    count = len(mod.SIBLINGS)
+    top_first = answer(own, mod, mod.RUN_TOP)
+    after = [answer(own, mod, sib) for sib in mod.SIBLINGS]  # each after the top class and the earlier siblings
+    m2 = load(spec, with_siblings=True)
+    try:
+        ctx2 = contextvars.copy_context()
+        before = {n: answer(ctx2, m2, m2.SIBLINGS[n]) for n in reversed(range(count))}  # each after the LATER siblings only
+        top_last = answer(ctx2, m2, m2.RUN_TOP)
+    finally:
+        unload(m2)
+    resolves = 2 * count + 2
+    described = gen.siblings(spec)
+    for n in range(count):
+        distinct += before[n] != top_first
+        if after[n] != before[n]:
+            devs.append(
+                {
+                    "signature": "answer-depends-on-previously-resolved-sibling-hierarchy",
+                    "detail": f"class Sib({', '.join(described[n][1])}) resolved before {mod.RUN_TOP.__name__}: {before[n]}; resolved after it: {after[n]}",
+                }
+            )
+    if top_last != top_first:
+        devs.append(
+            {
+                "signature": "answer-depends-on-previously-resolved-sibling-hierarchy",
+                "detail": f"{mod.RUN_TOP.__name__} resolved first: {top_first}; in a fresh copy of the module after the sibling classes "
+                f"{['Sib(' + ', '.join(b) + ')' for _, b in described]}: {top_last}",
+            }
+        )
+    return devs, resolves, distinct
+
+
+def judge(spec, with_parser=True, with_order=True, with_siblings=True):
     """-> dict(valid, devs, stats)"""
-    mod = load(spec)
+    with_siblings = with_siblings and bool(gen.siblings(spec))
+    mod = load(spec, with_siblings)
     out = {"valid": False, "devs": [], "offered": None, "box": True, "calls": 0, "resolves": 0, "crashed": False}
     # everything the library does for this program runs in one private copy of the context: a context variable that
     # the resolver leaves changed is seen by the later steps of this program, never by the next program
@@ -670,6 +750,12 @@ def judge(spec, with_parser=True, with_order=True):
         if with_parser and clean:
             out["devs"] += own.run(parser_check, mod, spec, views, params)
             out["parsed"] = True
+        if with_siblings:
+            devs, n, distinct = sibling_check(spec, mod, own)
+            out["devs"] += devs
+            out["resolves"] += n
+            out["siblings"] = len(mod.SIBLINGS)
+            out["siblings_distinct"] = distinct
     finally:
         unload(mod)
     return out
@@ -680,16 +766,16 @@ def judge(spec, with_parser=True, with_order=True):
 
 
 def run_case(case):
-    res = judge(case["program"], with_parser=True, with_order=True)
+    res = judge(case["program"], with_parser=True, with_order=True, with_siblings=True)
     return res["devs"]
 
 
 def _work(batch):
     """Worker: judge a batch of programs."""
     out = []
-    for spec, with_parser, with_order, family in batch:
+    for spec, with_parser, with_order, family, with_siblings in batch:
         try:
-            res = judge(spec, with_parser, with_order)
+            res = judge(spec, with_parser, with_order, with_siblings)
         except Exception as ex:  # harness problem: surfaces as a deviation that cannot be a known finding
             import traceback
 
@@ -704,6 +790,11 @@ def _pure_hierarchy(root, links):
     return root == "C" and all(l == "super" for l in links[:-1])
 
 
+def _pure_hierarchy_any_spelling(root, links):
+    """super().__init__(**kwargs) or its explicit own-class spelling super(ThisClass, self).__init__(**kwargs) per level"""
+    return root == "C" and all(l in gen.SUPER_LINKS for l in links[:-1])
+
+
 def _no_branching(root, links):
     return "inst_method" not in links and "ncc" not in links
 
@@ -716,7 +807,18 @@ def _quick_depth3(root, links):
     """At most one runtime branch; the placement of the live branch of a constant conditional (elif-not / else) is
     varied at the root level only - below the root a constant conditional is always the `if` form (which branch of
     an if/elif/else is live is decided inside one level; all placements at every level are in depth 2)."""
-    return _at_most_one_branching(root, links) and not any(l in ("cc_elifnot", "cc_else") for l in links[1:])
+    return _at_most_one_branching(root, links) and not any(l in ("cc_elifnot", "cc_else") for l in links[1:]) and _own_spelling_inside_super_chain(root, links)
+
+
+_OWN_SPELLING = ("super_own", "super_method_own")
+_SUPER_FAMILY = ("super", "super_own", "super_skip", "super_method", "super_method_own")
+
+
+def _own_spelling_inside_super_chain(root, links):
+    """The explicit own-class spelling super(ThisClass, self).m(**kwargs) is combined with every other link at depth 2;
+    at depth 3 (quick) it is generated only where it matters beyond that - inside a chain of two super-type links
+    (the position of the class in the method resolution order is then not the first one)."""
+    return not any(l in _OWN_SPELLING for l in links) or all(l in _SUPER_FAMILY for l in links[:-1])
 
 
 def _thorough_depth4(root, links):
@@ -734,20 +836,20 @@ def families(tier):
         return [
             dict(name="depth1", depths=[1], size="full", checks="full", same=True),
             dict(name="depth2", depths=[2], size="mid", checks="full", same=True),
-            dict(name="depth3", depths=[3], size="small", checks="resolve", same=False, link_filter=_quick_depth3, aux=False),
-            dict(name="hierarchy4", depths=[4], size="tiny4", checks="resolve", same=False, link_filter=_pure_hierarchy, rich=True),
-            dict(name="hierarchy2+blank", depths=[2], size="small+", checks="full", same=True, link_filter=_pure_hierarchy, blank=True),
+            dict(name="depth3", depths=[3], size="small", checks="resolve", same=False, link_filter=_quick_depth3, aux=False, siblings=True),
+            dict(name="hierarchy4", depths=[4], size="tiny4", checks="resolve", same=False, link_filter=_pure_hierarchy, rich=True, siblings=True),
+            dict(name="hierarchy2+blank", depths=[2], size="small+", checks="full", same=True, link_filter=_pure_hierarchy_any_spelling, blank=True, siblings=True),
             dict(name="hierarchy3+blank", depths=[3], size="tiny4", checks="resolve", same=False, link_filter=_pure_hierarchy, blank=True),
         ]
     return [
         dict(name="depth1", depths=[1], size="full", checks="full", same=True),
         dict(name="depth2", depths=[2], size="full", checks="full", same=True),
-        dict(name="depth3", depths=[3], size="med", checks="resolve", same=True, link_filter=_at_most_one_branching),
-        dict(name="depth4", depths=[4], size="tiny", checks="resolve", same=False, link_filter=_thorough_depth4),
-        dict(name="hierarchy4", depths=[4], size="small", checks="full", same=True, link_filter=_pure_hierarchy, rich=True),
+        dict(name="depth3", depths=[3], size="med", checks="resolve", same=True, link_filter=_at_most_one_branching, siblings=True),
+        dict(name="depth4", depths=[4], size="tiny", checks="resolve", same=False, link_filter=_thorough_depth4, siblings=True),
+        dict(name="hierarchy4", depths=[4], size="small", checks="full", same=True, link_filter=_pure_hierarchy, rich=True, siblings=True),
         dict(name="hierarchy5", depths=[5], size="tiny4", checks="resolve", same=False, link_filter=_pure_hierarchy, rich=True),
-        dict(name="hierarchy2+blank", depths=[2], size="mid", checks="full", same=True, link_filter=_pure_hierarchy, blank=True),
-        dict(name="hierarchy3+blank", depths=[3], size="small", checks="resolve", same=False, link_filter=_pure_hierarchy, blank=True),
+        dict(name="hierarchy2+blank", depths=[2], size="mid", checks="full", same=True, link_filter=_pure_hierarchy_any_spelling, blank=True, siblings=True),
+        dict(name="hierarchy3+blank", depths=[3], size="small", checks="resolve", same=False, link_filter=_pure_hierarchy_any_spelling, blank=True, siblings=True),
         dict(name="hierarchy4+blank", depths=[4], size="tiny", checks="resolve", same=False, link_filter=_pure_hierarchy, blank=True),
     ]
 
@@ -780,7 +882,7 @@ def explore(ctx):
         n0 = n_programs
         for spec in family_programs(fam):
             n_programs += 1
-            batch.append((spec, full, full, fam["name"]))
+            batch.append((spec, full, full, fam["name"], bool(fam.get("siblings"))))
             if len(batch) >= 100:
                 batches.append(batch)
                 batch = []
@@ -788,7 +890,7 @@ def explore(ctx):
     if batch:
         batches.append(batch)
     valid = invalid = calls = resolves = nonbox = crashed = parsed = swallow = cond = branching = 0
-    inline = after = blank = 0
+    inline = after = blank = regiven = own_spelling = sib_programs = sib_classes = sib_distinct = 0
     blank_positions = set()
     answers = set()
     shapes_valid = set()
@@ -817,6 +919,11 @@ def explore(ctx):
             branching += res.get("branches", 1) > 1
             inline += any(gen.op_inline(l[2]) for l in spec["levels"])
             after += any(l[2][:1] == "h" for l in spec["levels"])
+            regiven += any(gen.op_regiven(l[2]) and gen.op_popget(l[2])[0] == "G" for l in spec["levels"])
+            own_spelling += bool(res["offered"]) and any(l[0] in ("super_own", "super_method_own") for l in spec["levels"])
+            sib_programs += bool(res.get("siblings"))
+            sib_classes += res.get("siblings", 0)
+            sib_distinct += res.get("siblings_distinct", 0)
             if isinstance(spec["layout"], dict):
                 blank += 1
                 if res["offered"]:
@@ -853,6 +960,11 @@ def explore(ctx):
     ctx.count("programs_with_pop_or_get_inline_in_the_forwarding_call", inline)
     ctx.count("programs_with_keyword_hard_coded_after_the_unpacking", after)
     ctx.count("programs_with_a_class_without_init_inside_the_hierarchy", blank)
+    ctx.count("programs_with_kwargs_get_of_a_name_given_again_at_the_same_call", regiven)
+    ctx.count("programs_with_explicit_own_class_super_spelling_and_non_empty_answer", own_spelling)
+    ctx.count("programs_checked_against_sibling_hierarchies", sib_programs)
+    ctx.count("sibling_hierarchies_resolved_before_and_after_the_program", sib_classes)
+    ctx.count("sibling_hierarchies_whose_answer_differs_from_the_program_s", sib_distinct)
     ctx.cover(
         evaluations=n_programs,
         states=valid,
@@ -888,3 +1000,5 @@ def explore(ctx):
     want_positions = {(d, j) for fam in fams if fam.get("blank") for d in fam["depths"] for j in range(d + 1)}
     ctx.require(blank > 100 and blank_positions == want_positions, "a class without __init__ occurs at every position of the hierarchies (with a non-empty answer)")
     ctx.require(links_valid == set(gen.TARGET) | set(gen.TERMINALS), "every link pattern occurs in a valid program")
+    ctx.require(regiven > 100 and own_spelling > 100, "valid programs with kwargs.get of a name given again at the same call, and with the explicit own-class super spelling (non-empty answer), occur")
+    ctx.require(sib_programs > 100 and sib_distinct > 100, "programs are re-resolved around sibling hierarchies whose own answer differs from theirs")
